@@ -495,7 +495,7 @@ theorem ite_some_eq {α : Type} (p : Prop) [Decidable p] (x y : α)
 theorem vecFilter_eq (t : Table) (c : Cond) :
     ∀ bits, vecFilter t c = some bits → bits = t.rows.map (matchesRow c) := by
   induction c with
-  | tt => intro bits h; simp only [vecFilter, Option.some.injEq] at h; subst h; simp [matchesRow, evaluate]
+  | tt => intro bits h; simp [vecFilter] at h
   | eq col v =>
     intro bits h
     cases col with
